@@ -30,7 +30,9 @@ func leName(le string) string {
 
 // The physical layouts of the property.  "blank-lines" interleaves empty
 // lines, "blank-lines-spaces" interleaves lines made of blanks only.
-var allLayouts = []string{"lf", "crlf", "cr", "stream", "trimmed", "blank-lines", "blank-lines-spaces", "no-filler", "extra-filler"}
+var allLayouts = []string{"lf", "crlf", "cr", "stream", "trimmed", "blank-lines", "blank-lines-spaces", "no-filler", "extra-filler",
+	// combinations of the above (a file can arrive with CR endings AND trimmed blanks, etc.)
+	"trimmed-cr", "trimmed-crlf", "trimmed-lf", "mixed-endings", "trimmed-mixed-endings", "no-filler-trimmed-cr"}
 
 var filler = strings.Repeat("9", 94)
 
@@ -65,6 +67,31 @@ func layout(name string, recs []string, le string, r *gen.Rand) (text []byte, ch
 		for _, x := range recs {
 			sb.WriteString(strings.TrimRight(x, " "))
 			sb.WriteString(le)
+		}
+	case "trimmed-cr", "trimmed-crlf", "trimmed-lf", "mixed-endings", "trimmed-mixed-endings", "no-filler-trimmed-cr":
+		rs := recs
+		if name == "no-filler-trimmed-cr" {
+			n := len(rs)
+			for n > 0 && rs[n-1] == filler {
+				n--
+			}
+			rs = rs[:n]
+		}
+		for _, x := range rs {
+			if strings.Contains(name, "trimmed") {
+				x = strings.TrimRight(x, " ")
+			}
+			sb.WriteString(x)
+			switch {
+			case strings.HasSuffix(name, "-cr"):
+				sb.WriteString("\r")
+			case strings.HasSuffix(name, "-crlf"):
+				sb.WriteString("\r\n")
+			case strings.HasSuffix(name, "-lf"):
+				sb.WriteString("\n")
+			default:
+				sb.WriteString(gen.Pick(r, []string{"\n", "\r\n", "\r"}))
+			}
 		}
 	case "blank-lines", "blank-lines-spaces":
 		blank := func() {
@@ -459,7 +486,7 @@ func optsFor(i int) (gen.Opts, string) {
 func init() {
 	Register("C01", &Oracle{
 		Rule: "part A: generator files (cycling: all SECs / each single SEC incl. IAT and ADV; all categories; ASCII, Latin-1, full-width, Latin-1+risky shapes, large files; " +
-			"1/32 with empty FileCreationTime) x writer line ending LF/CRLF x 9 layouts (lf, crlf, cr, stream, trimmed, blank-lines, blank-lines-spaces, no-filler, extra-filler): " +
+			"1/32 with empty FileCreationTime) x writer line ending LF/CRLF x 15 layouts (lf, crlf, cr, stream, trimmed, blank-lines, blank-lines-spaces, no-filler, extra-filler, and the combinations trimmed x {cr,crlf,lf}, mixed endings per record, trimmed + mixed endings, no-filler + trimmed + cr): " +
 			"write, re-lay-out, read, compare tree shape and every record's String(), write again, compare bytes with the first text. " +
 			"part B (fixed point): every corpus text and lightly mutated corpus/generator texts that the Reader accepts and that validate are put through the same check. " +
 			"distinct = distinct (layout, writer line ending, file description without id); non-trivial = the layout changed the text (identity layouts always count) / the Reader accepted the text and the file validates",
